@@ -22,7 +22,7 @@ def attribute_pattern_name(model: Model) -> str:
     from ..anchors import filt as filter_anchors
     from ..rx.sites import find_sites
     fa = filter_anchors(model)
-    sites = find_sites(model)
+    sites = find_sites(model, (FILTER,))
     # functions used as substitution callbacks are not part of the parser proper (they see one escape at a time)
     callbacks = {model.resolve_name(s.module, s.callback.id) for s in sites if s.api == "sub" and isinstance(s.callback, ast.Name)}
     uses = [s.name for s in sites if s.api == "match" and s.name != "<inline>" and not s.nested and s.func not in callbacks and any(s.func == f.qualname for f in fa.parser_functions)]
@@ -365,7 +365,7 @@ def check(model: Model, run: Run) -> None:
     from ..rx.sites import find_sites as _fs
     from .c13 import strict_hex_decoding
     pq = {f.qualname for f in fa_.parser_functions}
-    un = [s_ for s_ in _fs(model) if s_.module == FILTER and s_.api == "sub" and s_.func.split(".<locals>")[0] in pq]
+    un = [s_ for s_ in _fs(model, (FILTER,)) if s_.module == FILTER and s_.api == "sub" and s_.func.split(".<locals>")[0] in pq]
     if len(un) == 1:
         strict_hex_decoding(model, run, un[0], "F6-escape-digits-decoded-strictly")
     else:
